@@ -373,14 +373,15 @@ func c02(c *core.Ctx, r *core.Report) {
 				v, _ := call.(ssa.Value)
 				// true successor of the If on take()'s result
 				var then *ssa.BasicBlock
+				var takenIf *ssa.If
 				for _, ref := range an.Referrers(v) {
 					if iff, ok := ref.(*ssa.If); ok {
-						then = iff.Block().Succs[0]
+						then, takenIf = iff.Block().Succs[0], iff
 					}
 					if u, ok := ref.(*ssa.UnOp); ok && u.Op == token.NOT {
 						for _, r2 := range an.Referrers(u) {
 							if iff, ok := r2.(*ssa.If); ok {
-								then = iff.Block().Succs[1]
+								then, takenIf = iff.Block().Succs[1], iff
 							}
 						}
 					}
@@ -390,6 +391,24 @@ func c02(c *core.Ctx, r *core.Report) {
 					continue
 				}
 				_, head := an.NaturalLoopOf(call.Block())
+				// nothing leaves the loop iteration between the take and the test of its result: a job that was taken is
+				// not abandoned before anybody looks whether it was
+				if takenIf.Block() != call.Block() {
+					var exits []ssa.Instruction
+					for _, ret := range an.Returns(fn) {
+						exits = append(exits, ret)
+					}
+					if head != nil && len(head.Instrs) > 0 {
+						exits = append(exits, head.Instrs[0])
+					}
+					for _, ex := range exits {
+						for _, s := range call.Block().Succs {
+							if reachesAvoiding(s, ex, takenIf) && !(ex.Block() == head && s == head) {
+								r.Violation(key+"-abandoned", an.Pos(c, ex), "this exit of the loop iteration is reachable after take() and before its result is tested: a request that was taken (the pending count is already decremented) is neither started nor reported dropped when the pool stops in between")
+							}
+						}
+					}
+				}
 				stop := map[*ssa.BasicBlock]bool{}
 				if head != nil {
 					stop[head] = true
